@@ -277,16 +277,31 @@ func c20Build(c *fw.Ctx, p c20Param) *schedInst {
 		}
 	}
 	panics := make([]string, len(p.Threads))
+	cctx, cancel := context.WithCancel(context.Background())
 	for i, n := range p.Threads {
 		i, n := i, n
+		if n == "CancelCtx" {
+			// the client of every "...@ctx" request goes away at some point
+			inst.Threads = append(inst.Threads, func() {
+				c20Yield("cancel")
+				cancel()
+			})
+			continue
+		}
+		ctx := context.Background()
+		if strings.HasSuffix(n, "@ctx") {
+			ctx = cctx
+			n = strings.TrimSuffix(n, "@ctx")
+		}
 		inst.Threads = append(inst.Threads, func() {
 			for _, r := range c20GcsReqs(n) {
-				if resp := d.Do(r); resp.Panic != "" {
+				if resp := d.DoCtx(ctx, r); resp.Panic != "" {
 					panics[i] = r.String() + ": " + resp.Panic
 				}
 			}
 		})
 	}
+	_ = cancel
 	inst.Verdict = func(x *sched.Exec) (string, string, string) {
 		vos.Hook = nil
 		defer func() {
@@ -491,6 +506,10 @@ func runC20Race(c *fw.Ctx, item *int64) {
 				scen = append(scen, c20Param{Side: "gcs", Store: store, Threads: []string{c20GcsOps[i], c20GcsOps[j]}})
 			}
 		}
+		// a client that goes away while its request waits for (or holds) object locks
+		for _, tr := range [][]string{{"Patch", "Compose@ctx", "CancelCtx"}, {"UploadMedia", "Copy@ctx", "CancelCtx"}, {"Compose", "Patch@ctx", "CancelCtx"}, {"Delete", "GetMedia@ctx", "CancelCtx"}} {
+			scen = append(scen, c20Param{Side: "gcs", Store: store, Threads: tr})
+		}
 		if c.Thorough() {
 			for _, tr := range [][]string{{"Patch", "GetMeta", "UploadMultipart"}, {"DeleteBucket", "List", "UploadMedia"}, {"Copy", "Compose", "Delete"}, {"Batch", "Patch", "Delete"}} {
 				scen = append(scen, c20Param{Side: "gcs", Store: store, Threads: tr})
@@ -509,7 +528,7 @@ func runC20Race(c *fw.Ctx, item *int64) {
 		}
 		sc := c20Scenario(c, p)
 		bound := 1
-		if c.Thorough() {
+		if c.Thorough() || (len(p.Threads) == 3 && p.Threads[2] == "CancelCtx") {
 			bound = 2
 		}
 		n := exploreRace(c, sc, bound, &seen)
